@@ -29,6 +29,13 @@ from ..core import Check, HarnessError, Inconclusive, Layer, Outcome, Violation
 
 INF = 10**12
 
+# Finding D8 (reported, not repaired here): StandaloneXXXNetworkServer.server_close() swallows the BusyResourceError that the
+# embedded async server_close() raises during serve_forever() set-up (it is a RuntimeError, and _run_sync_or_else suppresses
+# RuntimeError), marks the server closed and returns, while the server goes on to come up with its listeners open.
+# With the flag on, the standalone generator keeps service_init instantaneous (so the window is a few loop iterations) and
+# the oracle skips exactly that shape, counting it, so that the search continues past it.
+EXCLUDE_D8 = True
+
 LIFECYCLE = ("serve", "shutdown", "close", "activate")
 REFUSALS = ("ServerAlreadyRunning", "ServerClosedError", "BusyResourceError")
 
@@ -46,20 +53,43 @@ ALLOWED_RESULTS = {
 # generator
 
 
+_OP_POOL = ["serve"] * 6 + ["shutdown"] * 5 + ["close"] * 3 + ["activate"] * 2 + ["connect"] * 2 + ["wait"]
+
+
 @st.composite
 def st_ops(draw: st.DrawFn, max_delay: int) -> list[dict]:
-    n_tasks = draw(st.integers(1, 3))
-    n_ops = draw(st.integers(2, 8))
-    ops: list[dict] = []
+    """a history by construction.  The first operation of a task has an absolute start offset (ticks from the start), later
+    ones are relative to the end of the previous operation of the same task.  Two thirds of the histories start with a
+    *race skeleton* that aims an operation at the start-up window or the tear-down window of a serve_forever (both are
+    4 ticks long plus the generated factory / service_init / tear-down durations); the rest of the operations are free."""
     delays = [0, 0, 0, 1, 1, 2, 2, 3, 4, 5, 6, 7, 8, 10, 12, max_delay]
-    for _ in range(n_ops):
-        op = draw(st.sampled_from(["serve"] * 6 + ["shutdown"] * 5 + ["close"] * 3 + ["activate"] * 2 + ["connect"] * 2 + ["wait"]))
+    shape = draw(st.sampled_from(["free", "startup-race", "teardown-race", "teardown-race"]))
+    ops: list[dict] = []
+    if shape == "startup-race":
+        ops.append({"op": "serve", "task": 0, "delay": draw(st.integers(0, 3))})
+        ops.append({"op": draw(st.sampled_from(["close", "shutdown", "serve", "activate", "close", "shutdown"])), "task": 1, "delay": draw(st.integers(0, 12))})
+    elif shape == "teardown-race":
+        ops.append({"op": "serve", "task": 0, "delay": 0})
+        if draw(st.booleans()):
+            ops.append({"op": "connect", "task": 1, "delay": draw(st.integers(2, 8))})
+            a = 0
+        else:
+            a = draw(st.integers(4, 14))
+        ops.append({"op": draw(st.sampled_from(["shutdown", "shutdown", "close"])), "task": 1, "delay": a})
+        base = sum(o["delay"] for o in ops if o["task"] == 1)
+        ops.append({"op": draw(st.sampled_from(["serve", "serve", "close", "shutdown", "activate"])), "task": 2, "delay": base + draw(st.integers(0, 9))})
+    n_tasks = max([o["task"] for o in ops] + [draw(st.integers(0, 2))]) + 1
+    n_ops = draw(st.integers(max(2, len(ops)), 8))
+    while len(ops) < n_ops:
+        op = draw(st.sampled_from(_OP_POOL))
         d: dict[str, Any] = {"op": op, "task": draw(st.integers(0, n_tasks - 1)), "delay": draw(st.sampled_from(delays))}
         if op == "wait":
             d["k"] = draw(st.integers(1, 10))
         ops.append(d)
     if not any(o["op"] == "serve" for o in ops):
         ops[draw(st.integers(0, len(ops) - 1))]["op"] = "serve"
+        for o in ops:
+            o.pop("k", None) if o["op"] != "wait" else None
     return ops
 
 
@@ -114,7 +144,9 @@ def _overlap(a: dict, b: dict) -> bool:
     return a["start"] < _end(b) and b["start"] < _end(a)
 
 
-def check_history(recs: list[dict], *, owned_schedule: bool, details: dict) -> None:
+def check_history(
+    recs: list[dict], *, owned_schedule: bool, details: dict, init_stamps: list[int] | None = None, skipped: list[str] | None = None
+) -> None:
     """interval-order invariants.  `owned_schedule` (virtual loop): the stamps are exact, so 'shutdown returns only after
     serving has fully stopped' is judged on the end stamps themselves; with threads that comparison would race on who
     records its end stamp first, so it is judged on the is_serving() sample taken by the shutdown caller instead."""
@@ -144,7 +176,10 @@ def check_history(recs: list[dict], *, owned_schedule: bool, details: dict) -> N
         closed_before = [c for c in closes_ok if c["end"] is not None and c["end"] < f["start"]]
         if closed_before and res is not None:
             accepted = ("ServerClosedError", "ServerAlreadyRunning") if others else ("ServerClosedError",)
-            if res not in accepted:
+            # a shutdown issued while this call was still starting cancels it before it reaches the closed check: it then
+            # returns normally without having served, which is a refusal to serve as far as the statement goes
+            cancelled_by_shutdown = res == "ok" and f["up"] is None and any(f["start"] < s["start"] < _end(f) for s in shutdowns)
+            if res not in accepted and not cancelled_by_shutdown:
                 fail(
                     "served-after-close",
                     f"serve_forever #{f['i']} started after server_close #{closed_before[0]['i']} had completed and ended with {res!r} "
@@ -190,12 +225,27 @@ def check_history(recs: list[dict], *, owned_schedule: bool, details: dict) -> N
                     op=s["i"],
                 )
 
+    def d8_shaped(c: dict, f: dict | None = None) -> bool:
+        """recorded finding D8 (standalone only): server_close() arriving while the embedded async serve_forever() is inside
+        its set-up section (service_init entered, not yet up) returns normally although nothing was closed."""
+        if not (EXCLUDE_D8 and init_stamps is not None):
+            return False
+        for g in serves if f is None else [f]:
+            in_setup = g["start"] < c["end"] and (g["up"] is None or c["start"] < g["up"])
+            if in_setup and any(g["start"] < t < c["end"] and (g["up"] is None or t < g["up"]) for t in init_stamps):
+                if skipped is not None and "D8-signature-skipped" not in skipped:
+                    skipped.append("D8-signature-skipped")
+                return True
+        return False
+
     for c in closes_ok:
         if c["end"] is None:
             continue
         obs = c["obs"]
+        if (obs.get("is_serving_at_end") or obs.get("open_listeners_at_end")) and d8_shaped(c):
+            continue
         for f in serves:
-            if f["up"] is not None and f["up"] > c["end"]:
+            if f["up"] is not None and f["up"] > c["end"] and not d8_shaped(c, f):
                 fail("served-after-close", f"serve_forever #{f['i']} came up (stamp {f['up']}) after server_close #{c['i']} had returned (stamp {c['end']})", op=f["i"])
         if obs.get("is_listening_at_end"):
             fail("listening-after-close", f"is_listening() is True right after server_close #{c['i']} returned", op=c["i"])
@@ -372,7 +422,12 @@ async def _async_main(case: dict) -> dict:
                         open_l[-1].connect(c)
                         c.feed(b"ping\n")
                     else:
-                        open_l[-1].deliver(b"ping", ("127.0.0.1", 40000 + n_clients))
+                        try:
+                            open_l[-1].deliver(b"ping", ("127.0.0.1", 40000 + n_clients))
+                        except RuntimeError:
+                            # the serve task group is already shutting down: with the real asyncio datagram protocol the
+                            # same start_soon() failure ends in the loop's exception handler and the datagram is dropped
+                            rec["obs"]["dropped"] = True
                     rec["obs"]["connected"] = True
             elif kind == "wait":
                 for _ in range(int(op.get("k", 1))):
@@ -466,8 +521,6 @@ def run_async_case(case: dict) -> Outcome:
         info = run_virtual(_async_main, case, max_ticks=400_000)
     except Deadlock as exc:
         raise Violation("deadlock", f"virtual loop could not make progress: {exc}", proto=case["proto"]) from exc
-    finally:
-        logging.disable(logging.NOTSET)
     recs = info["history"]
     details = {"proto": case["proto"], "history": recs}
     if info.get("stuck"):
@@ -500,12 +553,16 @@ def st_standalone_case(draw: st.DrawFn, tier: str) -> dict:
         ops.append({"op": op, "task": draw(st.integers(0, n_tasks - 1)), "delay_ms": draw(st.sampled_from([0, 0, 1, 2, 3, 5, 8, 12, 20]))})
     if not any(o["op"] == "serve" for o in ops):
         ops[0]["op"] = "serve"
-    return {
+    case = {
         "proto": draw(st.sampled_from(["tcp", "udp"])),
         "ops": ops,
         "loop_setup_ms": draw(st.sampled_from([0, 2, 5, 10])),
         "service_init_ms": draw(st.sampled_from([0, 0, 3, 8])),
     }
+    if EXCLUDE_D8 and case["service_init_ms"]:
+        case["service_init_ms"] = 0
+        case["d8_masked"] = True
+    return case
 
 
 class _ThreadUpEvent:
@@ -518,7 +575,7 @@ class _ThreadUpEvent:
             self.rec["up"] = self.hist.stamp()
 
 
-def _make_standalone_server(case: dict) -> Any:
+def _make_standalone_server(case: dict, on_service_init: Any) -> Any:
     from easynetwork.protocol import DatagramProtocol, StreamProtocol
     from easynetwork.serializers import StringLineSerializer
     from easynetwork.servers.handlers import AsyncDatagramRequestHandler, AsyncStreamRequestHandler
@@ -536,6 +593,7 @@ def _make_standalone_server(case: dict) -> Any:
 
     class _Common:
         async def service_init(self, exit_stack: contextlib.AsyncExitStack, server: Any) -> None:
+            on_service_init(server)
             if init_s:
                 await asyncio.sleep(init_s)
 
@@ -564,24 +622,30 @@ def _standalone_once(case: dict) -> dict:
     torn everything down as far as possible)."""
     from easynetwork.exceptions import BusyResourceError, ServerAlreadyRunning, ServerClosedError
 
-    srv = _make_standalone_server(case)
     hist = History()
+    init_stamps: list[int] = []
     seen_sockets: list[Any] = []
     seen_lock = threading.Lock()
     client_socks: list[socket.socket] = []
 
-    def sample_sockets() -> None:
+    def on_service_init(async_server: Any) -> None:
+        # runs in the server's loop thread, after the listeners were bound: remember the listener sockets without going
+        # through the standalone server's locks (that would serialise the history behind the start-up)
+        init_stamps.append(hist.stamp())
         try:
-            socks = list(srv.get_sockets())
+            socks = list(async_server.get_sockets())
         except Exception:  # noqa: BLE001 - observation only
-            return
+            socks = []
         with seen_lock:
-            for s in socks:
-                seen_sockets.append(s)
+            seen_sockets.extend(socks)
+
+    srv = _make_standalone_server(case, on_service_init)
+
+    def sample_sockets() -> None:
+        pass
 
     class Up(_ThreadUpEvent):
-        def set(self) -> None:
-            super().set()
+        pass
 
     def do_op(index: int | str, op: dict, task: int | str, harness: bool = False) -> dict:
         rec = hist.new(index, op["op"], task)
@@ -729,6 +793,7 @@ def _standalone_once(case: dict) -> dict:
     if errors:
         raise HarnessError(f"C18 standalone harness thread failed: {errors[0]!r}")
     info["history"] = hist.view()
+    info["service_init_stamps"] = list(init_stamps)
     info["hang"] = hang
     info["leaked_threads"] = leaked_threads
     with seen_lock:
@@ -747,33 +812,36 @@ def _standalone_once(case: dict) -> dict:
 
 def run_standalone_case(case: dict) -> Outcome:
     logging.disable(logging.CRITICAL)
-    try:
-        hangs: list[dict] = []
-        info: dict | None = None
-        for _attempt in range(3):
-            try:
-                info = _standalone_once(case)
-                break
-            except _Hang as h:
-                hangs.append(h.args[0])
-        if info is None:
-            raise Violation(
-                "hang",
-                f"an operation did not return within {OP_WATCHDOG_S}s in three consecutive runs: {hangs[-1]['hang']}",
-                proto=case["proto"],
-                history=hangs[-1]["history"],
-            )
-        if hangs:
-            raise Inconclusive(f"watchdog expired in {len(hangs)} run(s) but not in a re-run: {hangs[0]['hang']}")
-    finally:
-        logging.disable(logging.NOTSET)
+    hangs: list[dict] = []
+    info: dict | None = None
+    for _attempt in range(3):
+        try:
+            info = _standalone_once(case)
+            break
+        except _Hang as h:
+            hangs.append(h.args[0])
+    if info is None:
+        raise Violation(
+            "hang",
+            f"an operation did not return within {OP_WATCHDOG_S}s in three consecutive runs: {hangs[-1]['hang']}",
+            proto=case["proto"],
+            history=hangs[-1]["history"],
+        )
+    if hangs:
+        raise Inconclusive(f"watchdog expired in {len(hangs)} run(s) but not in a re-run: {hangs[0]['hang']}")
+    if info["leaked_threads"]:
+        raise HarnessError(f"C18 standalone: threads outlived the case: {info['leaked_threads']}")
     recs = info["history"]
-    details = {"proto": case["proto"], "history": recs}
-    check_history(recs, owned_schedule=False, details=details)
+    details = {"proto": case["proto"], "history": recs, "service_init_stamps": info["service_init_stamps"]}
+    skipped: list[str] = []
+    check_history(recs, owned_schedule=False, details=details, init_stamps=info["service_init_stamps"], skipped=skipped)
     if info["open_sockets_after_final_close"]:
         raise Violation("listener-open-after-close", "a listener socket is still open after the final server_close", **details)
     nt, classes = classify(recs)
     classes.append(case["proto"])
+    classes.extend(skipped)
+    if case.get("d8_masked"):
+        classes.append("excluded-D8-by-construction")
     return Outcome(nontrivial=nt, classes=tuple(classes))
 
 
